@@ -8,6 +8,7 @@
 // report, a signal, abort/terminate kills the worker (the driver keys it from the report and restarts after the
 // journaled case); a non-std exception is reported here; a hang is caught by the driver's per-case watchdog.
 #include <map>
+#include <set>
 #include "common/gkw.hpp"
 #include "common/gdeck.hpp"
 #include <opm/input/eclipse/EclipseState/EclipseState.hpp>
@@ -203,6 +204,65 @@ int main(int argc, char** argv) {
     rep.count("corpus_seeds", args.shard == 0 ? (long)corpus.size() : 0);
     Catalog cat(parser);
     const long ncat = (long)cat.names.size();
+
+    // ---- mode=sweep: boundary sweep.  One case = one well-formed deck (a generated model, or a small flattened shipped deck) and EVERY
+    // single-integer edit of it: each integer token of a data line replaced by value+1 and by value-1, one variant at a time, run
+    // through the whole pipeline.  This is the systematic form of the off-by-one question "is an index / count one beyond what the
+    // other items announce refused?" that random mutation only samples.  Variants are capped per case (evenly thinned).
+    if (args.get("mode", "fuzz") == "sweep") {
+        const long cap = args.geti("max_variants", 400);
+        rep.run_cases([&](long idx, Rng& rng) {
+            std::string base, origin;
+            if (rng.chance(0.7)) { gdeck::Opts o; gdeck::Generator gen(rng, o); base = gen.generate().text(); origin = "gdeck-model"; }
+            else {
+                std::vector<const Seed*> small;
+                for (auto& sd : corpus) if (sd.name.find("seed raw") == std::string::npos && sd.text.size() < 40000) small.push_back(&sd);
+                if (small.empty()) return;
+                const Seed& sd = *small[rng.below(small.size())]; base = sd.text; origin = sd.name;
+            }
+            auto lines = splitLines(base);
+            struct Site { size_t line, tok; };
+            std::vector<Site> sites;
+            std::vector<std::vector<std::string>> toks(lines.size());
+            for (size_t i = 0; i < lines.size(); ++i) {
+                if (lines[i].rfind("--", 0) == 0) continue;
+                toks[i] = tokens(lines[i]);
+                for (size_t k = 0; k < toks[i].size(); ++k) {
+                    const auto& t = toks[i][k];
+                    if (!t.empty() && t.size() < 10 && t.find_first_not_of("0123456789") == std::string::npos) sites.push_back({i, k});
+                }
+            }
+            const long total = 2 * (long)sites.size();
+            const long step = std::max(1L, (total + cap - 1) / cap);
+            long ran = 0, deep = 0;
+            std::set<std::string> kwTouched;
+            std::string curKw;
+            for (long v = (long)rng.below((uint64_t)step); v < total; v += step) {
+                const Site& st = sites[v / 2];
+                const long val = atol(toks[st.line][st.tok].c_str()) + ((v % 2) ? -1 : 1);
+                if (val < 0) continue;
+                auto t = toks[st.line]; t[st.tok] = std::to_string(val);
+                std::string txt;
+                for (size_t i = 0; i < lines.size(); ++i) { txt += (i == st.line ? join(t) : lines[i]); txt += "\n"; }
+                size_t a = st.line; while (a > 0 && !(lines[a].size() && std::isupper((unsigned char)lines[a][0]) && lines[a].find(' ') == std::string::npos)) --a;
+                kwTouched.insert(lines[a].substr(0, 8));
+                rep.journal_note("origin: " + origin + "\nsweep: line " + std::to_string(st.line + 1) + " token " + std::to_string(st.tok + 1) + " (" + toks[st.line][st.tok] + " -> " + std::to_string(val) + ") under keyword " + lines[a] + "\n--- mutated text ---\n" + txt);
+                std::string what; int depth = 0;
+                try { depth = pipeline(parser, txt, false, "", python, what); }
+                catch (...) { rep.violation("non-std-exception", "something not derived from std::exception was thrown", "origin: " + origin + "\n--- mutated text ---\n" + txt); }
+                ++ran; if (depth >= 3) ++deep;
+            }
+            rep.count("sweep_variants_run", ran);
+            rep.count("sweep_variants_reaching_schedule", deep);
+            rep.count("sweep_integer_sites", (long)sites.size());
+            for (auto& k : kwTouched) rep.cover("sweep_keyword", k);
+            rep.cover("seed_kind", origin == "gdeck-model" ? "generated-model" : "shipped-flattened");
+            rep.case_done(vh::fnv(base), ran > 0);
+            if (idx < 1) rep.sample("sweep of " + origin + ": " + std::to_string(sites.size()) + " integer tokens, " + std::to_string(ran) + " variants run, " + std::to_string(deep) + " reached the Schedule");
+        });
+        rep.finish();
+        return 0;
+    }
 
     rep.run_cases([&](long idx, Rng& rng) {
         std::string base, origin;
